@@ -207,6 +207,12 @@ class Func:
         i = node_or_idx['t'] if isinstance(node_or_idx, dict) else node_or_idx
         return self.types[i]
 
+    def cty(self, node_or_idx):
+        """canonical spelling of the type (aliases and typedefs looked through)"""
+        i = node_or_idx['t'] if isinstance(node_or_idx, dict) else node_or_idx
+        ct = getattr(self, 'ctypes', None) or self.types
+        return ct[i]
+
     def _index(self):
         self._nodes = {}
         self._parent = {}
@@ -477,8 +483,10 @@ class Facts:
             d = json.load(open(f))
             self.units.append(d['unit'])
             types = d['types']
+            ctypes = d.get('ctypes') or types
             for fd in d['functions']:
                 fn = Func(fd, types, d['unit'])
+                fn.ctypes = ctypes
                 self.functions.setdefault(fn.key(), fn)
             for r in d['records']:
                 r = dict(r)
